@@ -20,7 +20,7 @@ def gen_cases(rng, n):
         if kind >= 8:
             T = rng.choice([4, 5, 6, 8, 10, 12, 20, 40])
         K = rng.choice([1, 2, 2, 3, 3, 4, 5])
-        s = rng.choice([0, 0, 1, 3])
+        s = rng.choice([0, 0, 1, 3, 40, 70, -30])       # magnitudes from 2^-70 to 2^50: optimality does not depend on scale
         if kind in (0, 1):
             hi = rng.choice([1, 2, 3])                 # tiny value sets: many ties
             lo = 0
@@ -50,6 +50,9 @@ def gen_cases(rng, n):
         if kind == 3 and T > 1:                        # a few huge cells among small ones
             cost = [[(v if rng.random() < 0.2 else v % 7) for v in row] for row in cost]
         form = rng.choice(forms)
+        extreme = s not in (0, 1, 3)
+        if extreme and form in ("int", "np.int64", "np.int32", "np.uint8", "np.float16", "np.float32"):
+            form = rng.choice(["float", "np.float64", "np.longdouble", "vector", "array1"])   # forms that hold 2^-70 .. 2^50
         bmax = max(1, min(hi - lo, 2 ** 12))
         if kind >= 8:
             spread = max(max(r) for r in cost) - min(min(r) for r in cost)
@@ -70,6 +73,9 @@ def gen_cases(rng, n):
         small = hi <= 40 and lo >= -40
         dts = ["float64"] * 4 + ["float32", "longdouble"] + (["float16"] if small else [])
         tdt = rng.choice(dts + ["int64", "int32"] + (["int16", "int8"] if small and s == 0 else []))
+        if extreme:
+            dts = ["float64", "float64", "float32", "longdouble"]
+            tdt = rng.choice(dts)
         if tdt.startswith("int") and s:
             cost = [[v * (2 ** s) for v in row] for row in cost]      # whole numbers after the 2^-s scaling
             if max(abs(v) for row in cost for v in row) >= 2 ** 23:
